@@ -449,3 +449,493 @@ theorem EInv.step {P : Space → Prop} {pre : List Ev} {cl : Nat} {sw : Sw} (h :
                 exact Or.inr ⟨t0, p, ⟨rfl, rfl⟩, by omega, hm⟩
 
 end Moc.Merge2D
+
+namespace Moc.Merge2D
+open Moc
+
+theorem EInv.foldl {P : Space → Prop} : ∀ (rest pre : List Ev) (cl : Nat) (sw : Sw), EInv P pre cl sw →
+    (∀ e ∈ pre, e.1 ≤ cl) → SortedEv cl rest → (∀ e ∈ rest, ∀ S, e.2 = some S → P S) →
+    ∃ cl', EInv P (pre ++ rest) cl' (rest.foldl emit sw) ∧ (∀ e ∈ pre ++ rest, e.1 ≤ cl') := by
+  intro rest
+  induction rest with
+  | nil => intro pre cl sw h hp _ _; exact ⟨cl, by simpa using h, by simpa using hp⟩
+  | cons e r ih =>
+    intro pre cl sw h hp hs hP
+    obtain ⟨c, x⟩ := e
+    have hst := h.step hp c x hs.1 (fun S hS => hP (c, x) List.mem_cons_self S hS)
+    have hp' : ∀ e ∈ pre ++ [(c, x)], e.1 ≤ c := by
+      intro e he
+      rcases List.mem_append.1 he with he | he
+      · exact Nat.le_trans (hp e he) hs.1
+      · simp at he; subst he; exact Nat.le_refl _
+    obtain ⟨cl', h1, h2⟩ := ih (pre ++ [(c, x)]) c (emit sw (c, x)) hst hp' hs.2
+      (fun e he => hP e (List.mem_cons_of_mem _ he))
+    refine ⟨cl', ?_, ?_⟩
+    · simpa [List.append_assoc] using h1
+    · simpa [List.append_assoc] using h2
+
+theorem EInv.init (P : Space → Prop) : EInv P [] 0 {} :=
+  ⟨trivial, Nat.le_refl _, fun e he => (by cases he), fun _ S hS => (by cases hS),
+   fun t0 p hp => (by cases hp), fun t s ht => (by omega)⟩
+
+/-- **Segments of an event sequence**: if the sequence ends in the state "outside", the closed segments
+    produced by the loop cover exactly the step function, are in order and carry non-empty coverages. -/
+theorem segments_spec (P : Space → Prop) (L : List Ev) (hs : SortedEv 0 L)
+    (hP : ∀ e ∈ L, ∀ S, e.2 = some S → P S) (hend : endState none L = none) :
+    SegFrom 0 (L.foldl emit {}).out ∧ (∀ e ∈ (L.foldl emit {}).out, e.2 ≠ [] ∧ P e.2) ∧
+    ∀ t s, memFlat t s (L.foldl emit {}).out ↔ ∃ S, stepAt none L t = some S ∧ mem s S := by
+  obtain ⟨cl, h, hle⟩ := EInv.foldl L [] 0 {} (EInv.init P) (fun e he => by cases he) hs hP
+  simp only [List.nil_append] at h hle
+  have hcur : (L.foldl emit {}).cur = none := by
+    cases hc : (L.foldl emit {}).cur with
+    | none => rfl
+    | some tp =>
+      obtain ⟨t0, p⟩ := tp
+      have := (h.curSome t0 p hc).1
+      rw [hend] at this; cases this
+  refine ⟨h.seg, h.spaces, fun t s => ?_⟩
+  by_cases ht : t < cl
+  · have := h.sem t s ht
+    rw [hcur] at this
+    simpa using this
+  · have ht' : cl ≤ t := by omega
+    rw [stepAt_all_le none L t (fun e he => Nat.le_trans (hle e he) ht'), hend]
+    constructor
+    · intro hm; exact absurd hm (not_memFlat_of_end_le h.seg (Nat.le_trans h.endLe ht'))
+    · rintro ⟨S, hS, _⟩; cases hS
+
+end Moc.Merge2D
+
+namespace Moc.Merge2D
+open Moc
+
+/-! ### the final pass -/
+
+/-- Valid flat coverage: time ranges non-empty, in order, not overlapping, coverages non-empty and satisfying
+    `P`, and two touching ranges never carry the same coverage (`pe`, `ps`: end and coverage of the previous
+    entry). -/
+def VF (P : Space → Prop) (pe : Nat) (ps : Option Space) : FlatST → Prop
+  | [] => True
+  | e :: t => pe ≤ e.1.1 ∧ e.1.1 < e.1.2 ∧ e.2 ≠ [] ∧ P e.2 ∧ ¬ (pe = e.1.1 ∧ ps = some e.2) ∧
+      VF P e.1.2 (some e.2) t
+
+theorem SegFrom.mono {lo lo' : Nat} {f : FlatST} (h : SegFrom lo f) (hle : lo' ≤ lo) : SegFrom lo' f := by
+  cases f with
+  | nil => trivial
+  | cons e t => exact ⟨Nat.le_trans hle h.1, h.2.1, h.2.2⟩
+
+theorem postPassFrom_spec (P : Space → Prop) : ∀ (rest : FlatST) (c : Rng × Space) (pe : Nat) (ps : Option Space),
+    pe ≤ c.1.1 → c.1.1 < c.1.2 → c.2 ≠ [] → P c.2 → ¬ (pe = c.1.1 ∧ ps = some c.2) →
+    SegFrom c.1.2 rest → (∀ e ∈ rest, e.2 ≠ [] ∧ P e.2) →
+    VF P pe ps (postPassFrom c rest) ∧
+    ∀ t s, memFlat t s (postPassFrom c rest) ↔ (c.1.1 ≤ t ∧ t < c.1.2 ∧ mem s c.2) ∨ memFlat t s rest := by
+  intro rest
+  induction rest with
+  | nil =>
+    intro c pe ps h1 h2 h3 h4 h5 _ _
+    refine ⟨⟨h1, h2, h3, h4, h5, trivial⟩, fun t s => ?_⟩
+    simp only [postPassFrom]
+    rw [memFlat_single]
+    constructor
+    · exact Or.inl
+    · rintro (h | ⟨e, he, _⟩)
+      · exact h
+      · cases he
+  | cons x rest ih =>
+    intro c pe ps h1 h2 h3 h4 h5 hseg hsp
+    obtain ⟨tr, sp⟩ := x
+    obtain ⟨g1, g2, g3⟩ := hseg
+    simp only [] at g1 g2 g3
+    have hsp' : ∀ e ∈ rest, e.2 ≠ [] ∧ P e.2 := fun e he => hsp e (List.mem_cons_of_mem _ he)
+    have hx := hsp (tr, sp) List.mem_cons_self
+    simp only [postPassFrom]
+    by_cases hlt : tr.1 < tr.2
+    · rw [if_pos hlt]
+      by_cases hfuse : (decide (c.1.2 = tr.1) && c.2 == sp) = true
+      · rw [if_pos hfuse]
+        simp only [Bool.and_eq_true, decide_eq_true_eq, beq_iff_eq] at hfuse
+        obtain ⟨f1, f2⟩ := hfuse
+        have := ih ((c.1.1, tr.2), c.2) pe ps h1 (by simp only []; omega) h3 h4 h5 g3 hsp'
+        refine ⟨this.1, fun t s => ?_⟩
+        rw [this.2 t s]
+        simp only []
+        have hcons : memFlat t s ((tr, sp) :: rest) ↔ (tr.1 ≤ t ∧ t < tr.2 ∧ mem s sp) ∨ memFlat t s rest := by
+          rw [show ((tr, sp) :: rest) = [(tr, sp)] ++ rest from rfl, memFlat_append, memFlat_single]
+        rw [hcons, ← f2]
+        constructor
+        · rintro (⟨a, b, m⟩ | h)
+          · by_cases hb : t < c.1.2
+            · exact Or.inl ⟨a, hb, m⟩
+            · exact Or.inr (Or.inl ⟨by omega, b, m⟩)
+          · exact Or.inr (Or.inr h)
+        · rintro (⟨a, b, m⟩ | ⟨a, b, m⟩ | h)
+          · exact Or.inl ⟨a, by omega, m⟩
+          · exact Or.inl ⟨by omega, b, m⟩
+          · exact Or.inr h
+      · rw [if_neg hfuse]
+        have hnf : ¬ (c.1.2 = tr.1 ∧ some c.2 = some sp) := by
+          rintro ⟨a, b⟩
+          apply hfuse
+          injection b with b
+          simp [a, b]
+        have := ih (tr, sp) c.1.2 (some c.2) g1 hlt hx.1 hx.2 hnf g3 hsp'
+        refine ⟨⟨h1, h2, h3, h4, h5, this.1⟩, fun t s => ?_⟩
+        rw [show (c :: postPassFrom (tr, sp) rest) = [c] ++ postPassFrom (tr, sp) rest from rfl, memFlat_append,
+          memFlat_single, this.2 t s]
+        rw [show ((tr, sp) :: rest) = [(tr, sp)] ++ rest from rfl, memFlat_append, memFlat_single]
+    · rw [if_neg hlt]
+      have := ih c pe ps h1 h2 h3 h4 h5 (g3.mono (by omega)) hsp'
+      refine ⟨this.1, fun t s => ?_⟩
+      rw [this.2 t s, show ((tr, sp) :: rest) = [(tr, sp)] ++ rest from rfl, memFlat_append, memFlat_single]
+      simp only []
+      constructor
+      · rintro (h | h)
+        · exact Or.inl h
+        · exact Or.inr (Or.inr h)
+      · rintro (h | ⟨a, b, _⟩ | h)
+        · exact Or.inl h
+        · omega
+        · exact Or.inr h
+
+theorem postPass_spec (P : Space → Prop) : ∀ (f : FlatST) (lo : Nat), SegFrom lo f → (∀ e ∈ f, e.2 ≠ [] ∧ P e.2) →
+    VF P lo none (postPass f) ∧ ∀ t s, memFlat t s (postPass f) ↔ memFlat t s f := by
+  intro f
+  induction f with
+  | nil => intro lo _ _; exact ⟨trivial, fun t s => Iff.rfl⟩
+  | cons x rest ih =>
+    intro lo hseg hsp
+    obtain ⟨tr, sp⟩ := x
+    obtain ⟨g1, g2, g3⟩ := hseg
+    simp only [] at g1 g2 g3
+    have hsp' : ∀ e ∈ rest, e.2 ≠ [] ∧ P e.2 := fun e he => hsp e (List.mem_cons_of_mem _ he)
+    have hx := hsp (tr, sp) List.mem_cons_self
+    simp only [postPass]
+    by_cases hlt : tr.1 < tr.2
+    · rw [if_pos hlt]
+      have := postPassFrom_spec P rest (tr, sp) lo none g1 hlt hx.1 hx.2 (by rintro ⟨_, h⟩; cases h) g3 hsp'
+      refine ⟨this.1, fun t s => ?_⟩
+      rw [this.2 t s, show ((tr, sp) :: rest) = [(tr, sp)] ++ rest from rfl, memFlat_append, memFlat_single]
+    · rw [if_neg hlt]
+      have := ih lo (g3.mono (by omega)) hsp'
+      refine ⟨this.1, fun t s => ?_⟩
+      rw [this.2 t s, show ((tr, sp) :: rest) = [(tr, sp)] ++ rest from rfl, memFlat_append, memFlat_single]
+      simp only []
+      constructor
+      · exact Or.inr
+      · rintro (⟨a, b, _⟩ | h)
+        · omega
+        · exact h
+
+end Moc.Merge2D
+
+namespace Moc.Merge2D
+open Moc
+
+/-! ### the operands -/
+
+/-- A well-formed operand: time ranges non-empty, in order, not overlapping (they may touch), canonical
+    space coverages. -/
+def InOk (lo : Nat) : FlatST → Prop
+  | [] => True
+  | e :: t => lo ≤ e.1.1 ∧ e.1.1 < e.1.2 ∧ Canon e.2 ∧ InOk e.1.2 t
+
+def CanonO (x : Option Space) : Prop := ∀ S, x = some S → Canon S
+
+theorem evs_cons (e : Rng × Space) (r : FlatST) : evs (e :: r) = (e.1.1, some e.2) :: (e.1.2, none) :: evs r := rfl
+
+theorem evs_sorted : ∀ (a : FlatST) (lo : Nat), InOk lo a → SortedEv lo (evs a) := by
+  intro a
+  induction a with
+  | nil => intro lo _; trivial
+  | cons e r ih =>
+    intro lo h
+    obtain ⟨h1, h2, _, h4⟩ := h
+    rw [evs_cons]
+    exact ⟨h1, Nat.le_of_lt h2, ih e.1.2 h4⟩
+
+theorem evs_endsNone (a : FlatST) : EndsNone (evs a) none := by
+  refine ⟨fun _ => rfl, ?_⟩
+  induction a with
+  | nil => intro e he; cases he
+  | cons x r ih =>
+    intro e he
+    rw [evs_cons] at he
+    cases hr : evs r with
+    | nil => rw [hr] at he; simp at he; rw [← he]
+    | cons y ys =>
+      rw [hr, List.getLast?_cons_cons, List.getLast?_cons_cons] at he
+      exact ih e (by rw [hr]; exact he)
+
+theorem evs_canon : ∀ (a : FlatST) (lo : Nat), InOk lo a → ∀ e ∈ evs a, CanonO e.2 := by
+  intro a
+  induction a with
+  | nil => intro lo _ e he; cases he
+  | cons x r ih =>
+    intro lo h e he
+    obtain ⟨_, _, h3, h4⟩ := h
+    rw [evs_cons] at he
+    rcases List.mem_cons.1 he with rfl | he
+    · intro S hS; injection hS with hS; subst hS; exact h3
+    · rcases List.mem_cons.1 he with rfl | he
+      · intro S hS; cases hS
+      · exact ih x.1.2 h4 e he
+
+/-- The step function of an operand is the coverage of the entry containing the instant. -/
+theorem stepAt_evs : ∀ (a : FlatST) (lo : Nat), InOk lo a → ∀ t s,
+    (∃ S, stepAt none (evs a) t = some S ∧ mem s S) ↔ memFlat t s a := by
+  intro a
+  induction a with
+  | nil =>
+    intro lo _ t s
+    constructor
+    · rintro ⟨S, hS, _⟩; cases hS
+    · rintro ⟨e, he, _⟩; cases he
+  | cons x r ih =>
+    intro lo h t s
+    obtain ⟨h1, h2, h3, h4⟩ := h
+    have hs := evs_sorted r x.1.2 h4
+    have hcons : memFlat t s (x :: r) ↔ (x.1.1 ≤ t ∧ t < x.1.2 ∧ mem s x.2) ∨ memFlat t s r := by
+      rw [show (x :: r) = [x] ++ r from rfl, memFlat_append, memFlat_single]
+    have hlater : t < x.1.2 → ¬ memFlat t s r := by
+      intro ht
+      rintro ⟨e, he, a1, _, _⟩
+      have : ∀ (r : FlatST) (lo : Nat), InOk lo r → ∀ e ∈ r, lo ≤ e.1.1 := by
+        intro r
+        induction r with
+        | nil => intro lo _ e he; cases he
+        | cons y ys ihy =>
+          intro lo hy e he
+          cases he with
+          | head => exact hy.1
+          | tail _ hm => have := ihy y.1.2 hy.2.2.2 e hm; have := hy.2.1; have := hy.1; omega
+      have := this r x.1.2 h4 e he
+      omega
+    rw [hcons, evs_cons, stepAt_cons, stepAt_cons]
+    simp only []
+    by_cases c2 : x.1.2 ≤ t
+    · rw [if_pos c2, ih x.1.2 h4 t s]
+      constructor
+      · exact Or.inr
+      · rintro (⟨_, b, _⟩ | h)
+        · omega
+        · exact h
+    · have hgt : ∀ e ∈ evs r, t < e.1 := fun e he => by have := hs.ge e he; omega
+      rw [if_neg c2, stepAt_all_gt _ (evs r) t hgt]
+      by_cases c1 : x.1.1 ≤ t
+      · rw [if_pos c1]
+        constructor
+        · rintro ⟨S, hS, hm⟩
+          injection hS with hS; subst hS
+          exact Or.inl ⟨c1, by omega, hm⟩
+        · rintro (⟨_, _, hm⟩ | h)
+          · exact ⟨x.2, rfl, hm⟩
+          · exact absurd h (hlater (by omega))
+      · rw [if_neg c1]
+        constructor
+        · rintro ⟨S, hS, _⟩; cases hS
+        · rintro (⟨a1, _, _⟩ | h)
+          · omega
+          · exact absurd h (hlater (by omega))
+
+/-! ### the three operations -/
+
+/-- Point-wise meaning of the operation. -/
+def Op.sem : Op → Prop → Prop → Prop
+  | .union, p, q => p ∨ q
+  | .inter, p, q => p ∧ q
+  | .diff, p, q => p ∧ ¬ q
+
+theorem apply_canon (op : Op) (x y : Option Space) (hx : CanonO x) (hy : CanonO y) : CanonO (op.apply x y) := by
+  intro S hS
+  cases op <;> cases x <;> cases y <;> simp only [Op.apply] at hS <;> (try cases hS) <;>
+    first
+      | exact hx _ rfl
+      | exact hy _ rfl
+      | exact (union_spec _ _ (hx _ rfl) (hy _ rfl)).1
+      | exact (intersection_spec _ _ (hx _ rfl) (hy _ rfl)).1
+      | exact (difference_spec _ _ (hx _ rfl) (hy _ rfl)).1
+
+theorem apply_sem (op : Op) (x y : Option Space) (hx : CanonO x) (hy : CanonO y) (s : Nat) :
+    (∃ S, op.apply x y = some S ∧ mem s S) ↔
+      op.sem (∃ S, x = some S ∧ mem s S) (∃ S, y = some S ∧ mem s S) := by
+  cases op <;> cases x <;> cases y <;> simp only [Op.apply, Op.sem]
+  · simp
+  · simp
+  · simp
+  · rename_i a b
+    have := (union_spec a b (hx _ rfl) (hy _ rfl)).2 s
+    simp [this]
+  · simp
+  · simp
+  · simp
+  · rename_i a b
+    have := (intersection_spec a b (hx _ rfl) (hy _ rfl)).2 s
+    simp [this]
+  · simp
+  · simp
+  · simp
+  · rename_i a b
+    have := (difference_spec a b (hx _ rfl) (hy _ rfl)).2 s
+    simp [this]
+
+theorem mergeEvents_canon (op : Op) : ∀ (l1 l2 : List Ev) (st1 st2 : Option Space),
+    (∀ e ∈ l1, CanonO e.2) → (∀ e ∈ l2, CanonO e.2) → CanonO st1 → CanonO st2 →
+    ∀ e ∈ mergeEvents op l1 l2 st1 st2, CanonO e.2 := by
+  intro l1 l2 st1 st2
+  have hnone : CanonO none := fun S hS => by cases hS
+  fun_induction mergeEvents op l1 l2 st1 st2 with
+  | case1 => intro _ _ _ _ e he; cases he
+  | case2 c x2 t2 st1 st2 ih =>
+    intro h1 h2 c1 c2 e he
+    have hx2 := h2 (c, x2) List.mem_cons_self
+    rcases List.mem_cons.1 he with rfl | he
+    · exact apply_canon op none x2 hnone hx2
+    · exact ih h1 (fun e he => h2 e (List.mem_cons_of_mem _ he)) c1 hx2 e he
+  | case3 c x1 t1 st1 st2 ih =>
+    intro h1 h2 c1 c2 e he
+    have hx1 := h1 (c, x1) List.mem_cons_self
+    rcases List.mem_cons.1 he with rfl | he
+    · exact apply_canon op x1 none hx1 hnone
+    · exact ih (fun e he => h1 e (List.mem_cons_of_mem _ he)) h2 hx1 c2 e he
+  | case4 v1 x1 t1 v2 x2 t2 st1 st2 hlt ih =>
+    intro h1 h2 c1 c2 e he
+    have hx1 := h1 (v1, x1) List.mem_cons_self
+    rcases List.mem_cons.1 he with rfl | he
+    · exact apply_canon op x1 st2 hx1 c2
+    · exact ih (fun e he => h1 e (List.mem_cons_of_mem _ he)) h2 hx1 c2 e he
+  | case5 v1 x1 t1 v2 x2 t2 st1 st2 hn hlt ih =>
+    intro h1 h2 c1 c2 e he
+    have hx2 := h2 (v2, x2) List.mem_cons_self
+    rcases List.mem_cons.1 he with rfl | he
+    · exact apply_canon op st1 x2 c1 hx2
+    · exact ih h1 (fun e he => h2 e (List.mem_cons_of_mem _ he)) c1 hx2 e he
+  | case6 v1 x1 t1 v2 x2 t2 st1 st2 hn1 hn2 ih =>
+    intro h1 h2 c1 c2 e he
+    have hx1 := h1 (v1, x1) List.mem_cons_self
+    have hx2 := h2 (v2, x2) List.mem_cons_self
+    rcases List.mem_cons.1 he with rfl | he
+    · exact apply_canon op x1 x2 hx1 hx2
+    · exact ih (fun e he => h1 e (List.mem_cons_of_mem _ he)) (fun e he => h2 e (List.mem_cons_of_mem _ he)) hx1 hx2 e he
+
+end Moc.Merge2D
+
+namespace Moc.Merge2D
+open Moc
+
+theorem endState_of_endsNone : ∀ (l : List Ev) (st : Option Space), EndsNone l st → endState st l = none := by
+  intro l
+  induction l with
+  | nil => intro st h; exact h.1 rfl
+  | cons e r ih =>
+    intro st h
+    show endState e.2 r = none
+    exact ih e.2 h.tail
+
+theorem stepAt_canon : ∀ (l : List Ev) (init : Option Space) (t : Nat), CanonO init → (∀ e ∈ l, CanonO e.2) →
+    CanonO (stepAt init l t) := by
+  intro l
+  induction l with
+  | nil => intro init t h _; exact h
+  | cons e r ih =>
+    intro init t h hl
+    rw [stepAt_cons]
+    apply ih
+    · split
+      · exact hl e List.mem_cons_self
+      · exact h
+    · exact fun x hx => hl x (List.mem_cons_of_mem _ hx)
+
+theorem exists_bound (l : List Ev) : ∃ T, ∀ e ∈ l, e.1 ≤ T := by
+  induction l with
+  | nil => exact ⟨0, fun e he => by cases he⟩
+  | cons a r ih =>
+    obtain ⟨T, hT⟩ := ih
+    refine ⟨max T a.1, fun e he => ?_⟩
+    cases he with
+    | head => exact Nat.le_max_right _ _
+    | tail _ hm => exact Nat.le_trans (hT e hm) (Nat.le_max_left _ _)
+
+theorem apply_none_none (op : Op) : op.apply none none = none := by cases op <;> rfl
+
+/-- **`Ranges2D::merge` (union / intersection / difference of flat space-time coverages)**: for every pair of
+    well-formed operands the result is a VALID flat coverage (time ranges non-empty, ordered, disjoint; coverages
+    non-empty and canonical; no two touching ranges with the same coverage) and covers exactly the pairs
+    `(t, s)` given by the point-wise operation. -/
+theorem merge2_spec (op : Op) (a b : FlatST) (ha : InOk 0 a) (hb : InOk 0 b) :
+    VF Canon 0 none (merge2 op a b) ∧
+    ∀ t s, memFlat t s (merge2 op a b) ↔ op.sem (memFlat t s a) (memFlat t s b) := by
+  have sa := evs_sorted a 0 ha
+  have sb := evs_sorted b 0 hb
+  have ca := evs_canon a 0 ha
+  have cb := evs_canon b 0 hb
+  have hnone : CanonO none := fun S hS => by cases hS
+  have hs := mem_mergeEvents_ge op (evs a) (evs b) none none 0 sa sb
+  have hcan := mergeEvents_canon op (evs a) (evs b) none none ca cb hnone hnone
+  have hstep := mergeEvents_step op (evs a) (evs b) none none 0 sa sb (evs_endsNone a) (evs_endsNone b)
+  rw [apply_none_none] at hstep
+  -- the merged sequence ends "outside"
+  have hend : endState none (mergeEvents op (evs a) (evs b) none none) = none := by
+    obtain ⟨T, hT⟩ := exists_bound (mergeEvents op (evs a) (evs b) none none ++ (evs a ++ evs b))
+    have h1 := stepAt_all_le none _ T (fun e he => hT e (List.mem_append_left _ he))
+    have h2 := stepAt_all_le none (evs a) T (fun e he => hT e (List.mem_append_right _ (List.mem_append_left _ he)))
+    have h3 := stepAt_all_le none (evs b) T (fun e he => hT e (List.mem_append_right _ (List.mem_append_right _ he)))
+    rw [← h1, hstep T, h2, h3, endState_of_endsNone _ _ (evs_endsNone a), endState_of_endsNone _ _ (evs_endsNone b),
+      apply_none_none]
+  obtain ⟨g1, g2, g3⟩ := segments_spec Canon _ hs (fun e he S hS => hcan e he S hS) hend
+  have pp := postPass_spec Canon _ 0 g1 g2
+  refine ⟨pp.1, fun t s => ?_⟩
+  unfold merge2
+  rw [pp.2 t s, g3 t s, hstep t,
+    apply_sem op _ _ (stepAt_canon _ none t hnone ca) (stepAt_canon _ none t hnone cb) s,
+    stepAt_evs a 0 ha t s, stepAt_evs b 0 hb t s]
+
+end Moc.Merge2D
+
+namespace Moc.Merge2D
+open Moc
+
+/-- The flat coverage as an ST-MOC (one time range per element). -/
+def toST (f : FlatST) : STMoc := f.map fun e => ([e.1], e.2)
+
+theorem memST_toST (t s : Nat) (f : FlatST) : memST t s (toST f) ↔ memFlat t s f := by
+  unfold memST toST memFlat
+  constructor
+  · rintro ⟨e, he, h1, h2⟩
+    obtain ⟨x, hx, rfl⟩ := List.mem_map.1 he
+    simp only [mem, or_false] at h1
+    exact ⟨x, hx, h1.1, h1.2, h2⟩
+  · rintro ⟨x, hx, h1, h2, h3⟩
+    exact ⟨([x.1], x.2), List.mem_map.2 ⟨x, hx, rfl⟩, by simp [mem]; exact ⟨h1, h2⟩, h3⟩
+
+/-- `VF` is what the executable judge `validFlatB` accepts. -/
+theorem validFlatB_of_VF : ∀ (g : FlatST) (pe : Nat) (ps : Option Space), VF Canon pe ps g →
+    validFlatB (toST g) = true := by
+  intro g
+  induction g with
+  | nil => intro _ _ _; rfl
+  | cons e r ih =>
+    intro pe ps h
+    obtain ⟨_, h2, h3, h4, _, h6⟩ := h
+    have hc : canonB e.2 = true := (canonB_iff e.2).2 h4
+    have hne : (!e.2.isEmpty) = true := by
+      cases he : e.2 with
+      | nil => exact absurd he h3
+      | cons _ _ => rfl
+    cases r with
+    | nil =>
+      simp only [toST, List.map_cons, List.map_nil, validFlatB, decide_eq_true h2, hc, hne, Bool.and_self]
+    | cons f r' =>
+      have ihr := ih e.1.2 (some e.2) h6
+      obtain ⟨k1, k2, _, _, k5, _⟩ := h6
+      have hnt : (!(decide (e.1.2 = f.1.1) && e.2 == f.2)) = true := by
+        simp only [Bool.not_eq_true', Bool.and_eq_false_iff, decide_eq_false_iff_not, beq_eq_false_iff_ne]
+        by_cases he : e.1.2 = f.1.1
+        · right
+          intro hs
+          exact k5 ⟨he, by rw [hs]⟩
+        · exact Or.inl he
+      simp only [toST, List.map_cons, validFlatB] at ihr ⊢
+      simp only [decide_eq_true h2, decide_eq_true k1, hnt, hc, hne, Bool.and_self, Bool.true_and]
+      exact ihr
+
+end Moc.Merge2D
